@@ -14,11 +14,16 @@ import (
 // tier 1: quick
 // tier 2: thorough
 
+// VBigLen is the data length used by tier 9 (one large data field: the upper end of the domain).
+var VBigLen int
+
 func vDataLen(tier, min int) int {
 	if tier < 0 {
 		return 2
 	}
 	switch tier {
+	case 9:
+		return VBigLen
 	case 0:
 		return vr.IntOf(min, 3)
 	case 1:
@@ -28,7 +33,7 @@ func vDataLen(tier, min int) int {
 }
 
 func vSPILen(tier int) int {
-	if tier < 0 {
+	if tier < 0 || tier == 9 {
 		return 4
 	}
 	switch tier {
